@@ -7,8 +7,9 @@
    [out : inputs -> void|int|double]; the dyn_slot / gaussian classifiers are
    an oracle [tag : inputs -> (label, sureness)].  Only statements here;
    proofs are in coq/Eval/*Proofs.v. *)
-From Coq Require Import ZArith NArith QArith List Bool.
-From VV Require Import Base.F64 Eval.EvalDefs Eval.EvalProofs Eval.EvalExactProofs.
+From Coq Require Import ZArith NArith QArith Reals List Bool.
+From Flocq Require Import IEEE754.BinarySingleNaN.
+From VV Require Import Base.F64 Eval.EvalDefs Eval.EvalProofs Eval.EvalExactProofs Eval.EvalFloatProofs.
 Import ListNotations.
 
 (* ================================================================ exact == *)
@@ -118,4 +119,121 @@ Print Assumptions C05_undefined_output_gets_penalty.
 Example C05_penalty_values :
   F64.to_bits (F64.div dbl_max hundred) = 9188604247731475578 /\   (* 0x7F847AE147AE147A = DBL_MAX/100 *)
   F64.to_bits two_hundred = 4641240890982006784 /\ F64.to_bits one = 4607182418800017408.
+Proof. repeat split; vm_compute; reflexivity. Qed.
+
+(* ======================================= binary64: sign, NaN, zero, counts == *)
+(* [B2R x] is the real value of a finite double (0 for NaN/infinities, hence
+   always paired with [is_finite]). *)
+
+(* ---- never NaN, never positive (indeed always finite) for the four error
+        based evaluators, operator() and fast(), for ALL programs and ALL
+        datasets: no hypothesis on outputs or targets (infinities and NaN
+        cells included).  This is about the REPAIRED sum_of_errors_impl /
+        rmae functor; the pinned ones are refuted in Refuted_C05.v. ---------- *)
+Theorem C05_error_evaluators_never_nan_never_positive :
+  forall (out : list pout -> pout) (step : nat) (d : list example) (errf : example -> f64),
+  errf = mae_err out \/ errf = mse_err out \/ errf = rmae_err out \/ errf = count_err out ->
+  exists v, snd (sum_of_errors_impl errf step d) = [v] /\
+            F64.is_finite v = true /\ F64.is_nan v = false /\ (B2R v <= 0)%R.
+Proof.
+  intros out step d errf H.
+  destruct (sum_of_errors_sign errf step d) as (v & E & F & P).
+  - intros e _. destruct H as [ -> | [ -> | [ -> | -> ] ] ]; [apply nn_mae|apply nn_mse|apply nn_rmae|apply nn_count].
+  - exists v. repeat split; try assumption. destruct v; try discriminate F; reflexivity.
+Qed.
+Print Assumptions C05_error_evaluators_never_nan_never_positive.
+
+(* any user supplied error functor that never returns a negative value *)
+Theorem C05_sum_of_errors_never_nan_never_positive :
+  forall (errf : example -> f64) (step : nat) (d : list example),
+  (forall e, In e d -> F64.ltb (errf e) F64.zero = false) ->
+  exists v, snd (sum_of_errors_impl errf step d) = [v] /\ F64.is_finite v = true /\ (B2R v <= 0)%R.
+Proof.
+  intros errf step d H. apply sum_of_errors_sign. intros e He. specialize (H e He).
+  destruct (errf e) as [s|s| |s m ex pf]; cbn; auto; destruct s; try reflexivity; discriminate H.
+Qed.
+Print Assumptions C05_sum_of_errors_never_nan_never_positive.
+
+(* ---- every target reproduced => fitness is zero (bit pattern of -0.0) ---- *)
+Theorem C05_all_reproduced_gives_zero :
+  forall (out : list pout -> pout) (step : nat) (d : list example) (errf : example -> f64),
+  errf = mae_err out \/ errf = mse_err out \/ errf = rmae_err out \/ errf = count_err out ->
+  (forall e, In e d ->
+     p_has_value (out (ex_in e)) = true /\ lex_double (out (ex_in e)) = target e /\ F64.is_finite (target e) = true) ->
+  snd (sum_of_errors_impl errf step d) = [F64.neg F64.zero].
+Proof.
+  intros out step d errf H R. apply all_reproduced_gives_zero. intros e He.
+  destruct (reproduced_errors_zero out e (R e He)) as (E1 & E2 & E3 & E4).
+  destruct H as [ -> | [ -> | [ -> | -> ] ] ]; assumption.
+Qed.
+Print Assumptions C05_all_reproduced_gives_zero.
+
+(* ---- single-row data: the fitness is exactly minus the error ------------- *)
+Theorem C05_single_row_fitness_is_minus_error : forall (errf : example -> f64) (e : example),
+  F64.is_finite (errf e) = true -> (0 <= B2R (errf e))%R ->
+  exists v, snd (soe_eval errf [e]) = [v] /\ F64.is_finite v = true /\ B2R v = (- B2R (errf e))%R.
+Proof. exact single_row_fitness. Qed.
+Print Assumptions C05_single_row_fitness_is_minus_error.
+
+(* ---- dyn_slot / binary: minus the number of misclassified examples ------- *)
+Theorem C05_count_is_minus_mismatches : forall tag (d d' : list example) (f : fitness),
+  dyn_slot_eval tag d = Some (d', f) -> (Z.of_nat (length d) < 2 ^ 53)%Z ->
+  exists v, f = [v] /\ F64.is_finite v = true /\
+            B2R v = (- IZR (Z.of_nat (length (filter (cls_wrong tag) d))))%R.
+Proof. exact count_is_minus_mismatches. Qed.
+Print Assumptions C05_count_is_minus_mismatches.
+
+Theorem C05_binary_is_minus_mismatches : forall out (d d' : list example) (f : fitness),
+  binary_eval out d = Some (d', f) -> (Z.of_nat (length d) < 2 ^ 53)%Z ->
+  exists v, f = [v] /\ F64.is_finite v = true /\
+            B2R v = (- IZR (Z.of_nat (length (filter (cls_wrong (binary_tag out)) d))))%R.
+Proof. intros out. exact (count_is_minus_mismatches (binary_tag out)). Qed.
+Print Assumptions C05_binary_is_minus_mismatches.
+
+Theorem C05_count_zero_iff_all_right : forall tag (d d' : list example) (f : fitness),
+  dyn_slot_eval tag d = Some (d', f) -> (Z.of_nat (length d) < 2 ^ 53)%Z ->
+  (f = [F64.neg F64.zero] <-> forall e, In e d -> cls_wrong tag e = false).
+Proof. exact count_zero_iff_all_right. Qed.
+Print Assumptions C05_count_zero_iff_all_right.
+
+(* ---- gaussian: -n <= fitness <= 0, finite (never NaN) -------------------- *)
+Theorem C05_gaussian_bounds : forall tag classes (d d' : list example) (f : fitness),
+  (forall i, F64.is_finite (snd (tag i)) = true /\ (0 <= B2R (snd (tag i)) <= 1)%R) ->
+  (2 <= classes <= 2 ^ 53)%Z -> (Z.of_nat (length d) < 2 ^ 53)%Z ->
+  gaussian_eval tag classes d = Some (d', f) ->
+  exists v, f = [v] /\ F64.is_finite v = true /\ (- IZR (Z.of_nat (length d)) <= B2R v <= 0)%R.
+Proof. exact gaussian_bounds. Qed.
+Print Assumptions C05_gaussian_bounds.
+
+(* ---- PARTIAL: running_mean_finite.
+   Full statement wanted by DESIGN 5.5 (NOT proved):
+     forall errf d, (forall e, In e d -> is_finite (errf e) = true /\ 0 <= B2R (errf e)) ->
+       the running average stays finite (the guard of the repaired
+       sum_of_errors_impl never fires) and lies between the least and the
+       greatest error.
+   Proved instead: the lower half for all inputs (the average is NaN or not
+   negative at every step, which with the guard gives the finite, non
+   positive fitness above), and exactness for single-row data
+   (C05_single_row_fitness_is_minus_error).  Missing: the upper bound
+   avg' <= max(avg, err) in binary64 (needs a Sterbenz / half-ulp case split);
+   the correspondence oracle checks |fitness + exact mean| <= 1e-9 * max error
+   on every generated case instead. *)
+Theorem C05_running_mean_finite_partial : forall (errf : example -> f64) (step : nat) (d : list example),
+  (forall e, In e d -> nn (errf e)) ->
+  nn (fst (snd (soe_loop errf step 0 d (F64.zero, F64.zero)))).
+Proof.
+  intros errf step d H. exact (proj1 (soe_loop_inv errf step d 0%nat _ H soe_inv_init)).
+Qed.
+Print Assumptions C05_running_mean_finite_partial.
+
+(* non-vacuity of the hypotheses above *)
+Example C05_float_nonvacuous :
+  (* a tag oracle meeting the gaussian hypothesis, on a dataset with a right and a wrong example *)
+  let tag := fun i : list pout => (1%Z, one) in
+  let d := [mk_example [PDouble one] (PInt 1) 0%N 0%N; mk_example [PDouble one] (PInt 0) 7%N 0%N] in
+  (forall i, F64.is_finite (snd (tag i)) = true) /\
+  option_map (fun r => (map ex_diff (fst r), map F64.to_bits (snd r))) (gaussian_eval tag 2 d)
+    = Some ([0%N; 8%N], [F64.to_bits (F64.neg one)]) /\
+  option_map (fun r => (map ex_diff (fst r), map F64.to_bits (snd r))) (dyn_slot_eval tag d)
+    = Some ([0%N; 8%N], [F64.to_bits (F64.neg one)]).
 Proof. repeat split; vm_compute; reflexivity. Qed.
